@@ -251,6 +251,12 @@ func runC02(rcx *RunCtx) {
 		}
 		for i := 0; i < nframes && alive; i++ {
 			m := genRandomReq(simrt.Choose, model.boundFids)
+			if simrt.Choose(12) == 0 {
+				// negotiate again, with another msize: the limit that counts
+				// is the one of the latest Rversion
+				m = &rc.Tversion{Msize: []uint32{curMsize / 2, curMsize * 2, 4096, 65536, 300}[simrt.Choose(5)], Version: "9P2000.L.Google.7"}
+				rcx.Count("renegotiations", 1)
+			}
 			raw, _ := good(m)
 			if uint32(len(raw)) > curMsize {
 				continue
@@ -263,6 +269,41 @@ func runC02(rcx *RunCtx) {
 				alive = feed(mut, what, nil, false)
 			} else {
 				alive = feed(raw, "good", m, true)
+			}
+		}
+		if bf := model.boundFids(); alive && !endMid && len(rcx.Findings) == 0 && len(bf) > 0 && curMsize >= 512 {
+			// A burst of frames in one write, good and rejected ones mixed:
+			// the replies (also the Rlerrors for the rejected frames) are
+			// written while other replies are being written; the reply stream
+			// must stay a sequence of whole frames, one per frame sent, and
+			// the frames after a rejected one are still served.
+			nrep := len(c.Mon.Rep.Frames)
+			var burst []byte
+			goodTags := map[uint16]bool{}
+			k := 3 + simrt.Choose(6)
+			for j := 0; j < k; j++ {
+				tag := c.Tag()
+				switch simrt.Choose(3) {
+				case 0:
+					burst = append(burst, rc.Encode(tag, &rc.Opaque{Type: []uint8{3, 211}[simrt.Choose(2)], Body: make([]byte, simrt.Choose(9))})...)
+				default:
+					burst = append(burst, rc.Encode(tag, &rc.Tgetattr{Fid: bf[simrt.Choose(len(bf))], Mask: rc.GetattrAll})...)
+					goodTags[tag] = true
+				}
+			}
+			c.Net.A.Write(burst)
+			simrt.WaitQuiescent()
+			rcx.Count("bursts", 1)
+			got := c.Mon.Rep.Frames[nrep:]
+			for _, fr := range got {
+				if fr.Class != rc.Exact {
+					find("reply-stream-corrupted", "burst", "after a burst of %d frames (good and rejected mixed) the reply stream contains something that is not a frame: %s", k, fr)
+					break
+				}
+				delete(goodTags, fr.Tag)
+			}
+			if len(rcx.Findings) == 0 && (len(got) != k || len(goodTags) > 0) {
+				find("reply-count", "burst", "a burst of %d well-delimited frames got %d replies; good frames left unanswered: %d", k, len(got), len(goodTags))
 			}
 		}
 		if alive && endMid && len(rcx.Findings) == 0 {
@@ -311,7 +352,7 @@ func init() {
 		Desc: "decoder safety: no panic, bounded buffering, frame resynchronisation (server and client as receivers)",
 		Run:  runC02,
 		Quick: 64000, Thorough: 4500000, QuickSecs: 60, ThorSecs: 1500,
-		Rule:  "streams of 6-46 frames: valid requests from the C04 generator, 40% mutated (bit flips, type byte, size field in {0,1,6,7,8,msize-1,msize,msize+1,4MiB+-1,2^31,2^32-1,len+-1}, body truncated with consistent size, trailing bytes, 2- and 4-byte count/length fields blown up, random bytes, R-types, header-only), optionally before Tversion, optionally ending inside a frame; x segmentation (whole / random / single bytes); client as receiver: fake-server replies mutated the same way. Frames are fed one at a time with a run to quiescence in between. Oracle: independent three-valued classifier (refcodec): exact frames judged by the C04 session model and the backend call log (delivered values), malformed/unknown-type frames answered Rlerror with exactly size bytes consumed and no backend call, size<7 or >msize ends the connection without the body being read, trailing bytes either way; exactly one reply per well-delimited frame before any byte of the next; every Read buffer <= 4 MiB; no panic reaches the top of a goroutine.",
+		Rule:  "streams of 6-46 frames: valid requests from the C04 generator, 40% mutated (bit flips, type byte, size field in {0,1,6,7,8,msize-1,msize,msize+1,4MiB+-1,2^31,2^32-1,len+-1}, body truncated with consistent size, trailing bytes, 2- and 4-byte count/length fields blown up, random bytes, R-types, header-only), optionally before Tversion, optionally ending inside a frame; x segmentation (whole / random / single bytes); client as receiver: fake-server replies mutated the same way. Frames are fed one at a time with a run to quiescence in between; now and then a Tversion with another msize re-negotiates (the limit that counts is the latest); at the end a burst of 3-8 good and rejected frames in one write, whose replies must form a sequence of whole frames, one per frame sent. Oracle: independent three-valued classifier (refcodec): exact frames judged by the C04 session model and the backend call log (delivered values), malformed/unknown-type frames answered Rlerror with exactly size bytes consumed and no backend call, size<7 or >msize ends the connection without the body being read, trailing bytes either way; exactly one reply per well-delimited frame before any byte of the next; every Read buffer <= 4 MiB; no panic reaches the top of a goroutine.",
 		Assume: []string{"the tag of the Rlerror for an undecodable frame may be the frame's tag or NOTAG", "a mutated frame that is itself a valid message is judged as that message (reply and tag only)"},
 		Real:   []string{"p9 recv/decode paths (server and client)", "p9.Server", "p9.Client"},
 		Stub:   []string{"transport (simnet pipes)", "raw 9P peer / fake server (refcodec)", "backend tree (simfs)"},
